@@ -110,6 +110,7 @@ class Runtime(object):
         self.by_id = {}
         self.keep = []
         self.resources = {}
+        self.none_resources = set()
         self.defaults = {}
         self.fspec = {}
         self.app = None
@@ -125,6 +126,10 @@ class Runtime(object):
         return m
 
     def resource(self, name):
+        if name in (self.cfg.get('none_resources') or ()):
+            # a resource whose value is None: registered all the same, so it is what the name is bound to
+            self.none_resources.add(name)
+            return None
         if name not in self.resources:
             self.resources[name] = self.mark(['resource', name])
         return self.resources[name]
@@ -137,6 +142,8 @@ class Runtime(object):
 
     # -- symbolisation of what a spy actually received ---------------------------------------
     def symbolize(self, pname, value, tr):
+        if value is None and pname in self.none_resources:
+            return ['resource', pname]
         vid = id(value)
         s = self.by_id.get(vid)
         if s is not None:
@@ -220,7 +227,11 @@ class Runtime(object):
                 else:
                     o = Response('resp:%s:%s' % (fid, tok), mimetype='text/plain')
             elif kind == 'exc':
-                if self.exc_flavour.get(fid) == 'http':
+                if self.exc_flavour.get(fid) == 'werkzeug':
+                    # an HTTP error of the underlying library, not clastic's own: to the framework an exception like any other
+                    import werkzeug.exceptions
+                    o = werkzeug.exceptions.NotFound('exc:%s:%s' % (fid, tok))
+                elif self.exc_flavour.get(fid) == 'http':
                     from clastic.errors import Conflict
                     o = Conflict(detail='exc:%s:%s' % (fid, tok))
                 else:
@@ -329,7 +340,8 @@ def make_callable(rt, f, role, provides=()):
         return ns['fn']
     if form == 'callable_object':
         sig, _ = signature_src(params, with_self=True)
-        exec('class K(object):\n%s    def __call__(%s):\n        return %s\nfn = K()\n' % (falsy, sig, call), ns)
+        descr = '    def __get__(self, obj, objtype=None):\n        return self\n' if f.get('descriptor') else ''
+        exec('class K(object):\n%s%s    def __call__(%s):\n        return %s\nfn = K()\n' % (falsy, descr, sig, call), ns)
         if f.get('wrapped'):
             # a class-based decorator that did functools.update_wrapper(self, func): the object advertises the function it
             # wraps (__wrapped__, __name__, ...), but what gets called - and what must be analysed - is its own __call__
@@ -420,6 +432,9 @@ def pattern_of(route):
     ops = [''] * len(bs)
     if bs and route.get('last_op'):
         ops[-1] = route['last_op']
+    if bs and route.get('last_type'):
+        # a typed last binding: '<b:int>', '<b?int>', '<b*int>' ...
+        ops[-1] = (ops[-1] or ':') + route['last_type']
     return '/r' + ''.join('/<%s%s>' % (b, op) for b, op in zip(bs, ops))
 
 
